@@ -1,23 +1,23 @@
 #!/bin/bash
 # Development test (not a registered check): applies each behaviour-preserving
 # refactoring under /verif/benign/<id>/patch.diff (written by blind sub-agents,
-# existing tests pass with them) to a scratch copy of /repo and runs every check:
-# each must say what it says about /repo.  usage: benign_test.sh [substring]
+# existing tests pass with them) to a scratch copy of /repo and runs every check
+# (quick tier, one load: `sioverif checkall`): each must say what it says about
+# /repo.  usage: benign_test.sh [substring]   (env J = patches in parallel, default 5)
 export GOFLAGS=-mod=mod GOPROXY=off GOSUMDB=off GOTOOLCHAIN=local GOWORK=off
 V=$(cd "$(dirname "$0")/.." && pwd)
-tot=0; bad=0
-for r in $V/benign/*${1}*/; do
-  id=$(basename $r); tot=$((tot+1))
+one() {
+  r=$1; id=$(basename $r)
   d=$(mktemp -d /tmp/siobn-XXXX); mkdir $d/repo $d/verif; rsync -a --exclude .git /repo/ $d/repo/; cp $V/KNOWN_FINDINGS.txt $d/verif/
-  (cd $d/repo && git init -q . && git apply $r/patch.diff) 2>/dev/null || { echo "$id: patch does not apply (repo moved on)"; rm -rf $d; continue; }
-  (cd $d/repo && go build ./...) >/dev/null 2>&1 || { echo "$id: does not build"; rm -rf $d; continue; }
-  for p in $($V/bin/sioverif list); do
-    ( $V/bin/sioverif check $p --repo $d/repo --verif $d/verif > $d/out.$p 2>&1; echo $? > $d/rc.$p ) &
-    if (( $(jobs -r | wc -l) >= 6 )); then wait -n; fi
-  done; wait
-  res=""
-  for p in $($V/bin/sioverif list); do rc=$(cat $d/rc.$p); [ "$rc" = "0" ] || res="$res\n    $p rc=$rc: $(grep -m2 -E '^violation|UNDECIDED' $d/out.$p | cut -c1-300 | tr '\n' ' ')"; done
-  if [ -z "$res" ]; then echo "$id: silent"; else bad=$((bad+1)); echo -e "$id: ALARM$res"; fi
+  (cd $d/repo && git init -q . && git apply $r/patch.diff) 2>/dev/null || { echo "$id: patch does not apply (repo moved on)"; rm -rf $d; return; }
+  (cd $d/repo && go build ./...) >/dev/null 2>&1 || { echo "$id: does not build"; rm -rf $d; return; }
+  $V/bin/sioverif checkall --repo $d/repo --verif $d/verif > $d/out 2>&1; rc=$?
+  if [ "$rc" = "0" ] && [ "$(grep -c '^== C.. exit=0' $d/out)" = "19" ]; then echo "$id: silent"
+  else echo "$id: ALARM rc=$rc $(grep -E '^violation|UNDECIDED|^== C.. exit=[12]' $d/out | cut -c1-300 | head -6 | tr '\n' ' ')"; fi
   rm -rf $d
-done
-echo "benign refactorings: $tot, with alarms/undecided: $bad"
+}
+export -f one; export V
+ls -d $V/benign/*${1}*/ | xargs -P ${J:-5} -I{} bash -c 'one {}' | sort > /tmp/benign.$$.out
+cat /tmp/benign.$$.out
+echo "benign refactorings: $(wc -l < /tmp/benign.$$.out), with alarms/undecided: $(grep -c ALARM /tmp/benign.$$.out), not applying/building: $(grep -c 'does not' /tmp/benign.$$.out)"
+rm -f /tmp/benign.$$.out
